@@ -1,9 +1,149 @@
 import Driver.Proto
-namespace Driver.C07
-open Scrapli
+import ScrapliModel.Close.Model
+/-!
+Line protocol for C07.
 
-/-- line-protocol handler for property C07 (arguments after the leading `c07` token) -/
+`c07 validate <nc> <mode> <twice> <r> <o> <n> <w> <events>`
+  * `<nc> <twice>` 0/1; `<mode>` 0 (blocked read returns EOF on close) / 1 (returns an error) /
+    2 (stays blocked);
+  * `<r> <o> <n> <w>`: where the read loop, the operation, the NETCONF read loop and the RPC waiter
+    are when the harness takes control (labels as below; the closer is idle, the device quiet with
+    two arrivals left);
+  * `<events>`: comma separated `P:label` in the order the schedule controller observed them,
+    `P ∈ R K O N W E`; a label is the name of the yield point the goroutine reached, `blocked`
+    (it did not reach a yield point and cannot move), `dead` (goroutine gone), `ret` (call
+    returned), and for `E` one of `data eof err` (`.` = no events).
+  Answer: `dom=<0|1> valid=<0|1> at=<index of the first event the model cannot do, or -1>
+  terminal=<0|1> quiet=<0|1 no library process can move> good=<0|1> final=<pcs of the possible end states> path=<state codes> n=<events>`.
+  `dom` = the start state satisfies the proved invariant (`Sys.inv`) and the closer is idle, i.e.
+  the theorems of `Props/C07.lean` apply to every continuation.
+
+An observed event `P:label` is accepted from a model state iff process `P` can reach a position with
+that label by one or more of its own steps, passing only through positions that have no yield
+point (`blocked`, `~`) — possibly after one step of another process whose own report is still to
+come (reports are logged in arrival order; a goroutine woken by a rendezvous or by a `close` may
+report before the goroutine that woke it). `blocked` is advisory (a timing observation): the
+process may have moved to a position without yield point or may just be slow.
+-/
+namespace Driver.C07
+open Scrapli.Close Scrapli.Close.Sys
+
+def c07Mode : String → Option Mode
+  | "0" => some .eofOnClose | "1" => some .errOnClose | "2" => some .stay | _ => none
+
+def rOfLabel : String → Option RPc
+  | "chan.read.top" => some .top | "chan.read.pre" => some .pre | "blocked" => some .inRead
+  | "chan.read.send" => some .send | "chan.read.exit" => some .exit | "dead" => some .dead | _ => none
+def oOfLabel : String → Option OPc
+  | "absent" => some .absent | "start" => some .start | _ => none
+def nOfLabel : String → Option NPc
+  | "absent" => some .absent | "nc.read.top" => some .top | "nc.read.pre" => some .pre
+  | "chan.Read.errs" => some .cErrs | "chan.Read.flag" => some .cFlag | "chan.Read.deq" => some .cDeq
+  | _ => none
+def wOfLabel : String → Option WPc
+  | "absent" => some .absent | "start" => some .start | _ => none
+
+def procOf : String → Option Proc
+  | "R" => some .R | "K" => some .K | "O" => some .O | "N" => some .N | "W" => some .W | "E" => some .E
+  | _ => none
+
+def labelOf (p : Proc) (s : St) : String :=
+  match p with
+  | .R => s.r.label | .K => s.k.label | .O => s.o.label | .N => s.n.label | .W => s.w.label
+  | .E => match s.feed with | .quiet => "quiet" | .data => "data" | .eof => "eof" | .err => "err"
+
+def c07Code (s : St) : Nat :=
+  (((((((((((b2n s.nc * 3 + s.mode.toNat) * 2 + b2n s.twice) * 12 + s.r.toNat) * 10 + s.k.toNat) * 2
+    + b2n s.second) * 6 + s.o.toNat) * 2 + b2n s.oSecond) * 11 + s.n.toNat) * 6 + s.w.toNat) * 4
+    + s.feed.toNat) * 3 + s.left.toNat) * 3 + s.panic.ctorIdx
+
+def dedup (l : List St) : List St :=
+  l.foldl (fun acc s => if acc.any (fun t => c07Code t == c07Code s) then acc else acc ++ [s]) []
+
+def silentLab (l : String) : Bool := l == "blocked" || l == "~"
+
+/-- states in which process `p` is observed at `lab` after one or more of its own steps that pass
+only through positions without a yield point -/
+def ownMoves (p : Proc) (lab : String) (s : St) : List St :=
+  if p == .E then (stepP .E s).filter fun t => labelOf .E t == lab
+  else
+    let silent (t : St) : Bool := silentLab (labelOf p t)
+    let l1 := stepP p s
+    let l2 := (l1.filter silent).flatMap (stepP p)
+    let l3 := (l2.filter silent).flatMap (stepP p)
+    let l4 := (l3.filter silent).flatMap (stepP p)
+    (l1 ++ l2 ++ l3 ++ l4).filter fun t => labelOf p t == lab
+
+/-- a tracked possibility: a model state plus the processes that have already made a move whose
+report has not been seen yet (the controller logs reports in arrival order; a goroutine woken by
+another one's step may report before the one that woke it) -/
+structure Tr where
+  s : St
+  ahead : List Proc
+
+def Tr.code (t : Tr) : Nat := c07Code t.s * 64 + t.ahead.foldl (fun a p => a + 2 ^ p.ctorIdx) 0
+
+def dedupT (l : List Tr) : List Tr :=
+  l.foldl (fun acc t => if acc.any (fun u => u.code == t.code) then acc else acc ++ [t]) []
+
+def allProcs : List Proc := [.R, .K, .O, .N, .W]
+
+def observeT (p : Proc) (lab : String) (t : Tr) : List Tr :=
+  if lab == "blocked" then
+    -- advisory ("did not reach a yield point within 40 ms"): the process may have moved on to a
+    -- position without yield point, or may just be slow
+    let moved := (ownMoves p "blocked" t.s).map fun s => { t with s := s }
+    t :: moved
+  else if t.ahead.contains p then
+    if labelOf p t.s == lab then [{ t with ahead := t.ahead.erase p }] else []
+  else
+    let direct := (ownMoves p lab t.s).map fun s => { t with s := s }
+    let viaOther :=
+      if p == .E || t.ahead.length ≥ 2 then [] else
+      allProcs.flatMap fun q =>
+        if q == p || t.ahead.contains q then [] else
+        (stepP q t.s).flatMap fun s1 =>
+          let ahead' := if silentLab (labelOf q s1) then t.ahead else q :: t.ahead
+          let joint := if labelOf p s1 == lab && labelOf p t.s != lab then [{ s := s1, ahead := ahead' : Tr }] else []
+          joint ++ (ownMoves p lab s1).map fun s2 => { s := s2, ahead := ahead' }
+    direct ++ viaOther
+
+def showFinal (s : St) : String :=
+  s!"r:{s.r.label};k:{s.k.label};second:{b2s s.second};o:{s.o.label};n:{s.n.label};w:{s.w.label};calls:{s.closeCalls};panic:{s.panic.ctorIdx}"
+
+def parseEvents (s : String) : Option (List (Proc × String)) :=
+  if s == "." then some [] else
+  (s.splitOn ",").mapM fun e =>
+    match e.splitOn ":" with
+    | [p, lab] => (procOf p).map fun p => (p, lab)
+    | _ => none
+
+def runEvents : List (Proc × String) → Nat → List Tr → List Nat → (Int × List Tr × List Nat)
+  | [], _, cur, path => (-1, cur, path)
+  | (p, lab) :: rest, i, cur, path =>
+    let nxt := dedupT (cur.flatMap (observeT p lab))
+    if nxt.isEmpty then (Int.ofNat i, cur, path)
+    else runEvents rest (i + 1) nxt (path ++ (nxt.take 1).map fun t => c07Code t.s)
+
 def handleC07 : List String → String
+  | ["validate", nc, mode, twice, r, o, n, w, evs] =>
+    match c07Mode mode, rOfLabel r, oOfLabel o, nOfLabel n, wOfLabel w, parseEvents evs with
+    | some mode, some r, some o, some n, some w, some evs =>
+      let s0 : St := { mkInit (s2b nc) mode (s2b twice) false with r := r, o := o, n := n, w := w }
+      let dom := inv s0 && s0.k == .idle
+      let (at_, curT, path) := runEvents evs 0 [{ s := s0, ahead := [] }] [c07Code s0]
+      -- at the end every move must have been reported
+      let done := curT.filter fun t => t.ahead.isEmpty
+      let cur := dedup ((if done.isEmpty then curT else done).map (·.s))
+      let terminal := cur.all fun s => (next s).isEmpty
+      let quiet := cur.all fun s =>
+        (stepP .R s).isEmpty && (stepP .K s).isEmpty && (stepP .O s).isEmpty && (stepP .N s).isEmpty
+          && (stepP .W s).isEmpty
+      let good_ := cur.all good
+      let fin := "|".intercalate (cur.map showFinal)
+      let pathS := ".".intercalate (path.map toString)
+      s!"dom={b2s dom} valid={b2s (at_ == -1)} at={at_} terminal={b2s terminal} quiet={b2s quiet} good={b2s good_} final={fin} path={pathS} n={evs.length}"
+    | _, _, _, _, _, _ => "bad-op"
   | _ => "bad-op"
 
 end Driver.C07
